@@ -13,8 +13,12 @@ CONSTANTS
     \* @type: Str;
     FirstHost,              \* the host under which dropctrl / dropall are recorded
     \* @type: Bool;
-    TimerStoppedOnClose     \* hazard switch (FALSE = the code as it should be): losing the control connection
+    TimerStoppedOnClose,    \* hazard switch (FALSE = the code as it should be): losing the control connection
                             \* stops the refresh timer but leaves pendingRefresh set
+    \* @type: Bool;
+    EventsBlockRefresh      \* hazard switch (defect D23, repaired): an event that waits to be handed to the loop blocks
+                            \* the control connection's reader, so the refresh gets no answer, fails, and the control
+                            \* connection is closed
 
 VARIABLES
     \* @type: Set(Str);
@@ -58,8 +62,14 @@ TablesVia(c) == listed \cup {c}
 \* case <-refreshTimer.C: refreshHosts (queryHosts + mergeHosts) on the control connection
 PRefresh ==
     /\ ctrl # "none" /\ timer = "fired"
+    /\ (EventsBlockRefresh => evq = <<>>)
     /\ view' = TablesVia(ctrl) /\ pend' = FALSE /\ timer' = "off"
     /\ UNCHANGED <<listed, up, ctrl, evq>>
+\* (hazard only) the refresh times out behind a waiting event; the loop closes the control connection
+PRefreshBlocked ==
+    /\ EventsBlockRefresh /\ ctrl # "none" /\ timer = "fired" /\ evq # <<>>
+    /\ ctrl' = "none" /\ evq' = <<>> /\ pend' = FALSE /\ timer' = "off"
+    /\ UNCHANGED <<listed, up, view>>
 
 \* case <-connectTimer.C: reconnect() to the next known host that accepts; connect re-reads the tables
 PReconnect ==
@@ -68,7 +78,7 @@ PReconnect ==
         /\ ctrl' = h /\ view' = TablesVia(h)
     /\ UNCHANGED <<listed, up, evq, pend, timer>>
 
-Proxy == PEvent \/ PTimerFires \/ PRefresh \/ PReconnect
+Proxy == PEvent \/ PTimerFires \/ PRefresh \/ PRefreshBlocked \/ PReconnect
 
 -----------------------------------------------------------------------------
 (* The environment                                                                  *)
